@@ -404,7 +404,8 @@ func (p *parser) error(msg string, offset, endOffset int) {
 func (p *parser) rune(r rune, opts CharsetOptions) charset {
 	p.set = append(p.set[:0], r, r)
 	cs := charset(p.set)
-	if opts.Fold {
+	if opts.Fold && (!opts.ScanBytes || r < utf8.RuneSelf) {
+		// Note: in bytes mode, non-ASCII runes are matched as their UTF-8 encoding, no folding.
 		cs.fold(opts.ScanBytes)
 	}
 	return cs
